@@ -459,8 +459,8 @@ func init() {
 			lps := []int{3}
 			pool := 6
 			if tier == "thorough" {
-				sets = []int{-1, 0, 6, 11, 14, 17}
-				lps = []int{3, 4}
+				sets = []int{-1, 0, 11, 17}
+				lps = []int{3}
 				pool = 8
 			}
 			for _, s := range sets {
@@ -499,7 +499,7 @@ func init() {
 		},
 		Bounds: func(tier string) string {
 			if tier == "thorough" {
-				return "concurrent half: 2 routers x {route moved from POST to GET in one Updates || GET request with 405 handling; two-route transaction || reader}, every sync-granularity schedule with <=3 pre-emptions; sequential half: 6 start sets x 5 snapshot kinds (Router.Iter, read-only Txn, Txn.Snapshot before/after a write, Txn.Iter after a write) x 1 later write (7 kinds, 8-pattern pool; 2 later writes with a 4-pattern pool for the first three kinds) issued directly / in a new txn / in the same txn, then commit or abort; snapshot re-observed (All, Prefix, Routes, Has, Route, Len, Lookup of every path of 2 and 4 bytes) after every step; frozen-object monitor on everything reachable from the snapshot"
+				return "concurrent half: 2 routers x {route moved from POST to GET in one Updates || GET request with 405 handling; two-route transaction || reader}, every sync-granularity schedule with <=3 pre-emptions; sequential half: 4 start sets x 5 snapshot kinds (Router.Iter, read-only Txn, Txn.Snapshot before/after a write, Txn.Iter after a write) x 1 later write (7 kinds, 8-pattern pool; 2 later writes with a 4-pattern pool for the first three kinds) issued directly / in a new txn / in the same txn, then commit or abort; snapshot re-observed (All, Prefix, Routes, Has, Route, Len, Lookup of every path of 2 and 4 bytes) after every step; frozen-object monitor on everything reachable from the snapshot"
 			}
 			return "concurrent half: 2 routers x {route moved from POST to GET in one Updates || GET request with 405 handling; two-route transaction || reader}, every sync-granularity schedule with <=2 pre-emptions; sequential half: 2 start sets x 5 snapshot kinds (Router.Iter, read-only Txn, Txn.Snapshot before/after a write, Txn.Iter after a write) x 1 later write (7 kinds, 6-pattern pool; 2 later writes with a 4-pattern pool for the first three snapshot kinds) issued directly / in a new txn / in the same txn, then commit or abort; snapshot re-observed (All, Prefix, Routes, Has, Route, Len, Lookup of every 3-byte path) after every step; frozen-object monitor on everything reachable from the snapshot"
 		},
@@ -693,7 +693,6 @@ func init() {
 				js = append(js, &Job{Harness: "C13Chain", Params: map[string]int{"g": g, "r": 2, "defaults": 0, "infix": 1}})
 			}
 			if tier == "thorough" {
-				add(4, 0, 1)
 				add(3, 2, 0)
 				add(3, 0, 1)
 				add(4, 0, 0)
@@ -706,7 +705,7 @@ func init() {
 			if tier == "thorough" {
 				g = 4
 			}
-			return fmt.Sprintf("up to %d global middleware, each registered through WithMiddleware or WithMiddlewareFor with a solver-chosen 8-bit scope mask (all 256 values), optionally together with DefaultOptions (registered after up to 3, thorough 4, of them); trailing-slash redirect enabled router-wide or only on the route that needs it; up to 2 route middleware; all five handler kinds per configuration; Route.Handle / Route.HandleMiddleware; Update; a second route with other middleware; concurrent NewRoute (see threads)", g)
+			return fmt.Sprintf("up to %d global middleware, each registered through WithMiddleware or WithMiddlewareFor with a solver-chosen 8-bit scope mask (all 256 values), optionally together with DefaultOptions (registered after up to 3 of them); trailing-slash redirect enabled router-wide or only on the route that needs it; up to 2 route middleware; all five handler kinds per configuration; Route.Handle / Route.HandleMiddleware; Update; a second route with other middleware; concurrent NewRoute (see threads)", g)
 		},
 		RequiredCovers: []string{"chains compared", "three or more global middleware", "concurrent NewRoute", "redirect enabled per route only", "route with an infix catch-all"},
 		Assumptions: []string{
